@@ -383,6 +383,26 @@ func checkC13(c *Ctx) (int, error) {
 					id++
 					cases = append(cases, fresh, reused)
 					c.ev.nontrivial(reused.Tag)
+					if stop < 3 && ni < 3 {
+						// the next stream on a source that is not a *bufio.Reader - a new object, or the very
+						// object the Reader was using (a bytes.Reader / strings.Reader re-targeted with its own Reset)
+						k2 := []string{"bytesReader", "stringsReader", "plain", "byteReader"}[(id+stop)%4]
+						same := k2 == "bytesReader" || k2 == "stringsReader"
+						g2 := group + "-nb"
+						n2 := next
+						n2.Src = srcWith(RSource{Kind: k2}, chunkSchedules[(fi+ni+1)%len(chunkSchedules)])
+						f2 := &RCase{ID: fmt.Sprintf("C13-%d-nb-fresh", id), Kind: kind, Arch: arch, Group: g2, GClause: "C13.same_as_fresh", Tag: "fresh|" + nx.name + "|" + k2, Segs: []RSeg{n2}}
+						h2 := h1
+						if same {
+							h2.Src = srcWith(RSource{Kind: k2}, nil)
+							n2.SameSrc = true
+						}
+						r2 := &RCase{ID: fmt.Sprintf("C13-%d-nb-reset", id), Kind: kind, Arch: arch, Group: g2, GClause: "C13.same_as_fresh",
+							Tag: fmt.Sprintf("%s|%s|then %s|%s same=%v", f1.name, stopName, nx.name, k2, same), Segs: []RSeg{h2, n2}}
+						id++
+						cases = append(cases, f2, r2)
+						c.ev.nontrivial(r2.Tag)
+					}
 				}
 			}
 		}
